@@ -547,7 +547,7 @@ func (b *Builder) AddTx(r *rng.R, kind string) bool {
 		}
 		return false
 	}
-	return false
+	return b.addTxChain(r, kind) // opt-in kinds (remine.go); false without drawing randomness for unknown kinds
 }
 
 func (b *Builder) newV2Contract(r *rng.R, cs consensus.State, h uint64) types.V2FileContract {
